@@ -19,7 +19,7 @@
 (* cfg: reject in "none" | "onrequest" | "onhost" | "onheader" | "onbefore"*)
 (*      | "negotiate", rejectStatus (0 = plain error -> 500)               *)
 (***************************************************************************)
-EXTENDS Naturals, Sequences, FiniteSets
+EXTENDS Integers, Sequences, FiniteSets
 
 Good == {"ok", "varied", "dup"}
 
@@ -66,10 +66,15 @@ ServerVerdict(req, cfg) ==
     ELSE IF KeyOpen(req) THEN "open"
     ELSE "ok"
 
+\* the status a rejecting callback produces: its own, or 500 for a plain error (rejectStatus 0) and for a
+\* rejection that names headers / a reason but no status (rejectStatus -1, a negative number in the logs)
+RejectStatusOf(cfg) == IF cfg.rejectStatus \in {0, 0 - 1} THEN 500 ELSE cfg.rejectStatus
+RejectBringsHeader(cfg) == cfg.rejectStatus # 0
+
 \* statuses the error response may carry
 AllowedStatus(req, cfg) ==
     Problems(req) \cup (IF ProtoProblem(req, cfg) THEN {400} ELSE {}) \cup
-      (IF cfg.reject # "none" THEN {IF cfg.rejectStatus = 0 THEN 500 ELSE cfg.rejectStatus} ELSE {})
+      (IF cfg.reject # "none" THEN {RejectStatusOf(cfg)} ELSE {})
       \cup (IF KeyOpen(req) THEN {400} ELSE {})
 
 \* first element of the client's list that the selector accepts ("" if none)
